@@ -38,6 +38,16 @@ func withPreload(c *Ctx, r *Rng, files map[string][]byte, twinBias bool) {
 			continue
 		}
 		src, _ := pickProgram(c, r, false)
+		if r.Chance(1, 6) {
+			// a library of some size (several hundred to three thousand lines): preloading it
+			// takes a noticeable share of the watchdog's window
+			var b []byte
+			for k := r.Range(40, 220); k > 0; k-- {
+				b = append(b, c.Corpus[r.Intn(len(c.Corpus))].Src...)
+				b = append(b, '\n')
+			}
+			src = b
+		}
 		if tgt, ok := files[target]; ok && (r.Chance(1, 3) || (twinBias && r.Chance(1, 2))) {
 			// the preloaded file is a sibling of the target: the same program with its literals
 			// resized and a few tokens changed, so the same constructs sit on the same rows of
